@@ -207,7 +207,14 @@ func cmdCheck(args []string) int {
 			if o.Kind == "vacuity" {
 				reason = "the precondition of the function is contradictory (vacuous proof)"
 			}
-			violations = append(violations, violation{Obligation: o.Name, Reason: reason, Replay: run.writeReplay(o)})
+			v := violation{Obligation: o.Name, Reason: reason}
+			if rec, ok := run.tryReplay(o); rec != nil {
+				v.Replay = run.writeReplayWith(o, rec, ok)
+				v.Reproduced = ok
+			} else {
+				v.Replay = run.writeReplay(o)
+			}
+			violations = append(violations, v)
 		}
 		fe["obligations"] = len(r.Obls)
 		fe["discharged"] = d
@@ -428,6 +435,26 @@ func (r *checkRun) writeReplay(o *Obligation) string {
 	}
 	data, _ := json.MarshalIndent(rec, "", " ")
 	os.WriteFile(p, append(data, '\n'), 0o644)
+	return p
+}
+
+func (r *checkRun) writeReplayWith(o *Obligation, rec map[string]any, reproduced bool) string {
+	p := r.writeReplay(o)
+	data, err := os.ReadFile(p)
+	if err != nil {
+		return p
+	}
+	var m map[string]any
+	if json.Unmarshal(data, &m) != nil {
+		return p
+	}
+	m["replayed"] = reproduced
+	m["replay"] = rec
+	if reproduced {
+		m["note"] = "counterexample of the solver executed against the real function with go test -overlay; it reproduces"
+	}
+	out, _ := json.MarshalIndent(m, "", " ")
+	os.WriteFile(p, append(out, '\n'), 0o644)
 	return p
 }
 
